@@ -669,6 +669,54 @@ theorem T_C16_circle_get_length_real {C e1 e2 : Vec ℝ} (hF : Frame e1 e2) {r :
 
 example : ((2 : ℝ) * 3.15 / 99) * (2 * 3.15 / 99) / 24 < 1.7e-4 := by norm_num
 
+/-! ### round 6d: descending parameters; additivity of the linear interpolant at arbitrary split parameters -/
+
+open CBV.C08 (Frame circAt) in
+/-- **Descending parameter lists** (`param_from > param_to`: the implementation discretises from the larger to the smaller parameter):
+    the same two-sided bound, by symmetry of the distance — for a list whose reverse ascends in steps of at most `h ≤ 2`,
+    `arc·(1 − h²/24) ≤ chord sum ≤ arc` with `arc = r·(first − last)`. -/
+theorem T_C16_circle_resampling_desc_real {C e1 e2 : Vec ℝ} (hF : Frame e1 e2) {r : ℝ} (hr : 0 ≤ r) {h : ℝ} (hh : h ≤ 2)
+    (ts : List ℝ) (first last : ℝ) (hf : ts.head? = some first) (hl : ts.getLast? = some last) (hs : Steps h ts.reverse) :
+    r * (first - last) * (1 - h * h / 24) ≤ polyLenR distR (ts.map (circAt C e1 e2 r)) ∧
+    polyLenR distR (ts.map (circAt C e1 e2 r)) ≤ r * (first - last) := by
+  have e : polyLenR distR (ts.map (circAt C e1 e2 r)) = polyLenR distR (ts.reverse.map (circAt C e1 e2 r)) := by
+    rw [List.map_reverse, polyLenR_reverse distR distR_symm]
+  rw [e]
+  exact T_C16_circle_resampling_real hF hr hh ts.reverse last first
+    (by rw [List.head?_reverse]; exact hl) (by rw [List.getLast?_reverse]; exact hf) hs
+
+example : Steps (1 / 2) ([1, 1 / 2, 1 / 4] : List ℝ).reverse := by
+  simp only [List.reverse_cons, List.reverse_nil, List.nil_append, List.cons_append, Steps]; norm_num
+
+/-- **`LinearInterpolatedCurve.get_length` is additive over a split at an arbitrary parameter** — on the exact polyline model
+    (`interp1d` over chord-length knots of exact positive segment lengths, any exact distance function), no hypothesis on the curve:
+    for `0 ≤ a ≤ b ≤ c ≤ 1`, `L(a, c) = L(a, b) + L(b, c)`; also with the parameters of any call in the other order
+    (`T_C16_linear_exact` is symmetric in its two parameters). -/
+theorem T_C16_linear_additive_exact (ps : List V) (ds : List Rat) (hw : SegWitPos ps ds) (hlen : 2 ≤ ps.length)
+    (d : V → V → Rat) (hd : ∀ p q, 0 ≤ d p q ∧ d p q * d p q = dist2 p q)
+    (a b c : Rat) (ha : 0 ≤ a) (hab : a ≤ b) (hbc : b ≤ c) (hc : c ≤ 1) :
+    ∃ l1 l2,
+      getLengthI d (fun t => (lerp (knotParams ds) ps t).getD default) (knotParams ds) a b = some l1 ∧
+      getLengthI d (fun t => (lerp (knotParams ds) ps t).getD default) (knotParams ds) b c = some l2 ∧
+      getLengthI d (fun t => (lerp (knotParams ds) ps t).getD default) (knotParams ds) a c = some (l1 + l2) ∧
+      getLengthI d (fun t => (lerp (knotParams ds) ps t).getD default) (knotParams ds) c a = some (l1 + l2) := by
+  have hb0 : 0 ≤ b := le_trans ha hab
+  have hb1 : b ≤ 1 := le_trans hbc hc
+  have hc0 : 0 ≤ c := le_trans hb0 hbc
+  have ha1 : a ≤ 1 := le_trans hab hb1
+  have hac : a ≤ c := le_trans hab hbc
+  refine ⟨(b - a) * total ds, (c - b) * total ds, ?_, ?_, ?_, ?_⟩
+  · have := T_C16_linear_exact ps ds hw hlen d hd a b ⟨ha, ha1⟩ ⟨hb0, hb1⟩
+    rwa [max_eq_right hab, min_eq_left hab] at this
+  · have := T_C16_linear_exact ps ds hw hlen d hd b c ⟨hb0, hb1⟩ ⟨hc0, hc⟩
+    rwa [max_eq_right hbc, min_eq_left hbc] at this
+  · have := T_C16_linear_exact ps ds hw hlen d hd a c ⟨ha, ha1⟩ ⟨hc0, hc⟩
+    rw [max_eq_right hac, min_eq_left hac] at this
+    rw [this]; congr 1; ring
+  · have := T_C16_linear_exact ps ds hw hlen d hd c a ⟨hc0, hc⟩ ⟨ha, ha1⟩
+    rw [max_eq_left hac, min_eq_right hac] at this
+    rw [this]; congr 1; ring
+
 /-! ### round 6: tie to the source text (tables regenerated by `cbv/tables/c16.py` with `ast` on every run) -/
 
 open CBV.C08 (chain opsAt operandsAt cmpOp) in
